@@ -111,16 +111,24 @@ def gen_mode(rng, prefix, rich):
         shots[name] = s
     if shots:
         cfg["shots"] = shots
-        if len(shots) >= 2 and rng.random() < 0.7:
+        if rng.random() < (0.75 if len(shots) >= 2 else 0.4):
             g = n("g", 0)
             # all member shots of a group share one profile (the group takes the first shot's profile)
             prof = shots[sorted(shots)[0]]["profile"]
             for s in shots.values():
                 s["profile"] = prof
-            cfg["shot_groups"] = {g: {"shots": sorted(shots), "rotate_left_events": "x_%s_rl" % g,
-                                      "rotate_right_events": "x_%s_rr" % g, "rotate_events": "x_%s_rot" % g,
-                                      "reset_events": "x_%s_rst" % g, "enable_events": "x_%s_en" % g,
-                                      "disable_events": "x_%s_dis" % g, "restart_events": "x_%s_rsta" % g}}
+            grp = {"shots": sorted(shots), "rotate_left_events": "x_%s_rl" % g,
+                   "rotate_right_events": "x_%s_rr" % g, "rotate_events": "x_%s_rot" % g,
+                   "reset_events": "x_%s_rst" % g}
+            # groups with and without their own enable/disable/restart events (a group without enable_events must
+            # not touch the members' persisted enable flags when its mode starts)
+            if rng.random() < 0.4:
+                grp["enable_events"] = "x_%s_en" % g
+            if rng.random() < 0.6:
+                grp["disable_events"] = "x_%s_dis" % g
+            if rng.random() < 0.5:
+                grp["restart_events"] = "x_%s_rsta" % g
+            cfg["shot_groups"] = {g: grp}
             stim += ["x_%s_%s" % (g, k) for k in ("rl", "rr", "rot", "rst", "en", "dis", "rsta")]
 
     ach = {}
